@@ -111,6 +111,71 @@ fn run_case(reply: &Reply, inter: usize, pace_ms: u64, acc: &mut Acc) -> (OpResu
     out
 }
 
+/// several cards presented one after the other to the same client: read i is answered with `replies[i]`
+fn run_seq(replies: &[Reply], acc: &mut Acc) -> Vec<OpResult> {
+    let mut ctx = Ctx::new(vec![], vec![], 0);
+    let sh: Sh = Rc::new(RefCell::new(std::mem::replace(&mut ctx, Ctx::new(vec![], vec![], 0))));
+    let rs = replies.to_vec();
+    let mut seen = 0usize;
+    let hook: Hook = Box::new(move |t, _ctx, req, x, _nth| {
+        if x != Xch::Main || req.key != "ReadCard" {
+            return None;
+        }
+        let r = Replies { table: t.table };
+        let mut s = vec![r.ack(), r.intermediate(0x17)];
+        match &rs[seen.min(rs.len() - 1)] {
+            Reply::Abort(c) => s.push(r.abort(*c)),
+            Reply::Status { uid, apps, tlv, rich } => {
+                let a: Option<Vec<Option<&str>>> = apps.as_ref().map(|l| l.iter().map(|x| x.as_deref()).collect());
+                s.push(r.card_status_ex(uid.as_deref(), a.as_deref(), *tlv, *rich))
+            }
+        }
+        seen += 1;
+        Some(s)
+    });
+    let sc = Scenario::new(sh.clone(), hook);
+    let out = match sc.new_feig(base_config()) {
+        Err(e) => vec![OpResult::Panicked(e)],
+        Ok(mut feig) => {
+            let mut v = vec![];
+            for _ in replies {
+                v.push(sc.run(&mut feig, &Op::ReadCard));
+                acc.count("transitions", 1);
+            }
+            drop(feig);
+            v
+        }
+    };
+    drop(sc);
+    out
+}
+
+/// Different cards on one client: the result of a read is a function of that read's reply alone,
+/// whatever was presented before. Alphabet: UIDs related through the canonical form (a tail alone,
+/// the tail behind 000000, behind longer runs of zeros, behind other digits, in both letter cases,
+/// tails that share a suffix), a bank card, 'no card' and an abort; every ordered pair is presented
+/// as first, second, first again.
+fn related_cards() -> Vec<Reply> {
+    let mut uids: Vec<String> = vec![];
+    for tail in ["a1b2c3d4", "04a1b2c3d4e5f6", "12345678", "00a1b2c3d4e5f6"] {
+        for pre in ["", "000000", "000000000000", "00", "99", "0000000000000000", "ff0000"] {
+            let u = format!("{pre}{tail}");
+            if u.len() % 2 == 0 && u.len() <= 40 {
+                uids.push(u.clone());
+                uids.push(u.to_uppercase());
+            }
+        }
+    }
+    uids.sort();
+    uids.dedup();
+    let mut v: Vec<Reply> = uids.into_iter().map(|u| Reply::Status { uid: Some(u), apps: None, tlv: true, rich: false }).collect();
+    v.push(Reply::Status { uid: Some("000000a1b2c3d4".into()), apps: Some(vec![Some("a0000000041010".to_string())]), tlv: true, rich: false });
+    v.push(Reply::Status { uid: Some("a1b2c3d4".into()), apps: Some(vec![Some("a0000000041010".to_string())]), tlv: true, rich: true });
+    v.push(Reply::Abort(0x6c));
+    v.push(Reply::Abort(0x64));
+    v
+}
+
 fn judge(want: &Want, got: &OpResult) -> Option<String> {
     let ok = match (want, got) {
         (Want::Bank, OpResult::Card(Ok(CardView::Bank))) => true,
@@ -241,7 +306,37 @@ pub fn run(run: &RunInfo) -> Summary {
             }
         }
     });
+    // different cards one after the other on the same client
+    let rel = related_cards();
+    let part = par_for(rel.len(), |ia, acc| {
+        if skip_for_replay(run, "c18/sequence/") {
+            return;
+        }
+        for ib in 0..rel.len() {
+            let seq = [rel[ia].clone(), rel[ib].clone(), rel[ia].clone()];
+            let got = run_seq(&seq, acc);
+            acc.count("executions", 1);
+            acc.count("w_sequences", 1);
+            let mut problems = vec![];
+            for (i, r) in seq.iter().enumerate() {
+                match got.get(i) {
+                    Some(g) => {
+                        if let Some(p) = judge(&reference(r), g) {
+                            problems.push(format!("read {i} ({r:?}): {p}"));
+                        }
+                    }
+                    None => problems.push(format!("read {i} was never made")),
+                }
+            }
+            acc.set("outcomes", h64(&(got.iter().map(|g| g.short()).collect::<Vec<_>>(), ia, ib)));
+            if !problems.is_empty() {
+                acc.violation(viol(format!("c18/sequence/{ia}/{ib}"), format!("cards presented one after the other to the same client:\n  {:?}\n  {:?}\n  {:?}\nresults: {:?}\n{}", seq[0], seq[1], seq[2], got.iter().map(|g| g.short()).collect::<Vec<_>>(), problems.join("\n")), (ia + ib) as u64));
+            }
+        }
+    });
+    acc.merge(part);
     for (c, w) in [
+        ("w_sequences", "different cards presented one after the other to the same client"),
         ("w_slow", "replies paced one second inside the per-packet time-out"),
         ("w_bank", "bank cards classified"),
         ("w_membership", "membership ids derived from the UID"),
@@ -262,9 +357,10 @@ pub fn run(run: &RunInfo) -> Summary {
         transitions: acc.get("transitions"),
         traces_validated: execs,
         distinct_nontrivial: acc.set_len("outcomes"),
-        rule: format!("real Feig::read_card (called twice) against the simulated terminal for {} replies: UID absent or of 0..=20 bytes with every count of leading zero bytes and two tail patterns (digits only / hex letters); application list absent, one entry with id, two with ids, one without id, one without followed by one with id, one with followed by one without, with / without / with, two without, empty, combined with four UIDs; status without TLV container; replies accompanied by every other field a terminal reports with a card (track data, 12-digit pre-authorisation limit, 20-digit card number, ATS/ATQA/SAK ...); all 256 abort codes; each preceded by 0, 1 and 2 intermediate statuses, every packet sent at once or 16 s after the previous one (one second inside the per-packet time-out). Oracle: the reference function of the statement; both presentations and all intermediate counts must agree", replies.len()),
+        rule: format!("real Feig::read_card (called twice) against the simulated terminal for {} replies: UID absent or of 0..=20 bytes with every count of leading zero bytes and two tail patterns (digits only / hex letters); application list absent, one entry with id, two with ids, one without id, one without followed by one with id, one with followed by one without, with / without / with, two without, empty, combined with four UIDs; status without TLV container; replies accompanied by every other field a terminal reports with a card (track data, 12-digit pre-authorisation limit, 20-digit card number, ATS/ATQA/SAK ...); all 256 abort codes; each preceded by 0, 1 and 2 intermediate statuses, every packet sent at once or 16 s after the previous one (one second inside the per-packet time-out). Then every ordered pair over {} related replies (UIDs that share a tail behind different prefixes, in both letter cases, a bank card, 'no card', an abort) presented to one client as first, second, first again: every read is judged by its own reply alone. Oracle: the reference function of the statement; both presentations and all intermediate counts must agree", replies.len(), related_cards().len()),
         exhaustive: true,
         required_witnesses: vec![
+            "different cards presented one after the other to the same client".into(),
             "replies paced one second inside the per-packet time-out".into(),
             "bank cards classified".into(),
             "membership ids derived from the UID".into(),
